@@ -148,16 +148,24 @@ def part_b(ctx):
     r = ctx.rnd
     d = os.path.join(ctx.work, "c12b")
     os.makedirs(d, exist_ok=True)
-    hdr = [f"##contig=<ID=c{i},length=10000000>" for i in range(4)] + ['##INFO=<ID=END,Number=1,Type=Integer,Description="end">', '##FILTER=<ID=PASS,Description="p">']
+    hdr0 = ['##INFO=<ID=END,Number=1,Type=Integer,Description="end">', '##FILTER=<ID=PASS,Description="p">']
     for i in range(ctx.n(10, 150)):
         recs = gen_records(r, small=(i % 2 == 0))
+        # every third file declares contigs SHORTER than some of its records reach (a header copied from another assembly, a
+        # reference block running past the declared end): the index summarises the stored arrays, whatever the header says
+        short = i % 3 == 1
+        hdr = [f"##contig=<ID=c{k},length={r.randint(5, 60) if short else 10000000}>" for k in range(4)] + hdr0
         lines = []
         for c, p, ln in recs:
             if ln == 1:
                 lines.append(f"c{c}\t{p}\t.\tA\tT\t.\tPASS\t.")
             else:
                 lines.append(f"c{c}\t{p}\t.\tA\t<DEL>\t.\tPASS\tEND={p + ln - 1}")
-        pth = vcfgen.make_indexed(d, "in", vcfgen.vcf_text(hdr, lines), kind=r.choice(["tbi", "csi"]))
+        try:
+            pth = vcfgen.make_indexed(d, "in", vcfgen.vcf_text(hdr, lines), kind=("tbi" if short else r.choice(["tbi", "csi"])))
+        except Exception as e:  # noqa: BLE001  (htslib refusing the generated file says nothing about bio2zarr)
+            ctx.note(f"generator: htslib could not index a generated file: {type(e).__name__}")
+            continue
         out = os.path.join(d, "o.vcz")
         for cs in sorted({1, 2, 3, len(recs), r.randint(1, len(recs) + 2)})[: ctx.n(2, 5)]:
             shutil.rmtree(out, ignore_errors=True)
